@@ -16,6 +16,10 @@ RECIPES = {
                          ("x", [("train", 2)]), ("x/y", [("train", 1)])]),
     "multi": ("fb", 2, [("multi", [("train", 3), ("train", 2),
                                    ("holdout", 1)])]),
+    "multi4": ("fb", 2, [("x", [("train", 1)]),
+                         ("multi", [("train", 2), ("train", 1), ("train", 3),
+                                    ("train", 1)]),
+                         ("y", [("train", 2)])]),
     "cont": ("fb", 2, [("root", [("train", 3)]), ("root", [("train", 2),
                                                           ("test", 3)])]),
     "npz": ("npz", 2, [("root", [("train", 5), ("test", 1)])]),
@@ -31,9 +35,15 @@ EXTRA = {
 }
 
 
-def build(root: Path, name: str, compression=None, hashes=("sha256",)):
-    """Create the dataset; returns (dataset, ref: split -> ids in order,
-    struct)."""
+def build(root: Path, name: str, compression=None, hashes=("sha256",),
+          uuids=None):
+    """Create the dataset; returns (dataset, ref: split -> ids in order).
+    uuids: None | 'ascending' | 'descending' (order of the generated names)."""
+    with D.uuid_order(uuids):
+        return _build(root, name, compression, hashes)
+
+
+def _build(root: Path, name: str, compression, hashes):
     from sedpack.io.dataset_filler import DatasetFiller
     fmt, eps, sessions = RECIPES.get(name) or EXTRA[name]
     dataset = D.create(root, fmt=fmt, eps=eps, compression=compression,
